@@ -147,6 +147,7 @@ def gen_case(rng):
     if rng.random() < 0.3:
         names.append(["sub", rng.choice(HDRS)])
     files = {}
+    guards = {}                                   # header name -> guard macros of its guarded copies
     # place each header name in 1..3 directories (clashes are the norm)
     order = list(names)
     for idx, n in enumerate(order):
@@ -174,6 +175,7 @@ def gen_case(rng):
             if style < 0.35:
                 g = f"G_{'_'.join(p).replace('.', '_')}"
                 body = [["If", ["NDefd", g]], ["Def", g, "E"]] + body + [["Endif"]]
+                guards.setdefault(pstr(n), []).append(g)
             elif style < 0.6:
                 body = [["Once"]] + body
             files[pstr(p)] = [p, normalise(body)]
@@ -190,6 +192,20 @@ def gen_case(rng):
         pos = rng.randint(0, len(body))
         body = body[:pos] + [["Inc", ["Q", [".."] + it if d != ["src"] else ["iter.h"]]],
                              ["If", ["Defd", "IT3"]], ["Code"], ["Else"], ["Code"], ["Endif"]] + body[pos:]
+    if guards and rng.random() < 0.3:
+        # a guarded header included, its guard(s) undefined, and the header included again: an include
+        # guard is only a macro test made at EACH inclusion, so the second inclusion is processed under
+        # the macro state at that point (a header must not be remembered as "guarded, skip it")
+        n = [x for x in names if pstr(x) in guards]
+        n = rng.choice(n)
+        form = rng.choice(["Q", "A"])
+        blk = [["Inc", [form, n]]] + [["Undef", g] for g in guards[pstr(n)]]
+        if rng.random() < 0.5:
+            m = rng.choice(FLAGS)
+            blk += [["Undef", m]] if rng.random() < 0.5 else [["Undef", m], ["Def", m, "E"]]
+        blk += [["Inc", [rng.choice(["Q", "A"]) if rng.random() < 0.3 else form, n]]]
+        pos = rng.randint(0, len(body)) if all(l[0] not in ("If", "Elif", "Else", "Endif") for l in body) else len(body)
+        body = body[:pos] + blk + body[pos:]
     # make sure the main file includes something
     body = gen_plain(rng, names)[:0] + [["Inc", [rng.choice(["Q", "A"]), rng.choice(names)]]] + body
     for m in FLAGS:
@@ -237,6 +253,12 @@ def gen_case(rng):
 
 
 CORPUS_EXTRA = [
+    # an include guard is a macro test made at each inclusion: after #undef of the guard the header is processed again
+    [[[["src", "a.c"], [["Inc", ["Q", ["defs.h"]]], ["Undef", "DEFS_H"], ["Def", "WIDE", "E"], ["Inc", ["Q", ["defs.h"]]],
+                        ["If", ["Defd", "HAVE_WIDE"]], ["Code"], ["Endif"], ["Code"]]],
+      [["src", "defs.h"], [["If", ["NDefd", "DEFS_H"]], ["Def", "DEFS_H", "E"], ["If", ["Defd", "WIDE"]], ["Def", "HAVE_WIDE", "E"], ["Code"],
+                           ["Else"], ["Code"], ["Endif"], ["Endif"]]]],
+     [["src", "a.c"], [], [], []]],
     # -I inc1 -I inc2 -I inc1: the repeated directory keeps its FIRST position
     [[[["inc1", "h.h"], [["Def", "FROM_1", "E"]]], [["inc2", "h.h"], [["Def", "FROM_2", "E"]]],
       [["src", "a.c"], [["Inc", ["A", ["h.h"]]], ["If", ["Defd", "FROM_1"]], ["Code"], ["Else"], ["Code"], ["Endif"]]]],
